@@ -1,4 +1,5 @@
 import OH.Driver.Ev
+import OH.Model.Parser
 /-
 Property-specific verdicts for the evaluator ops (same executions as `ev.*`, other predicates):
   c02.iter   C02 structure + pointwise clauses on the implementation's stream
@@ -391,7 +392,16 @@ def handle (op : String) (args impl : List String) : Option String :=
     else if op.startsWith "c03." then handleC03 op args ctx e res
     else if op.startsWith "c08." then handleC08 op args ctx e res
     else if op.startsWith "c16." then handleC16 op args ctx e res
-    else if op.startsWith "c17." then handleC17 op args ctx e res
+    else if op.startsWith "c17." then
+      -- comment collection at parse (parser.rs:82-87 is one of C17's mechanisms): the comments of each
+      -- rule of the expression the real parser returned must be those the sentence carries — read off
+      -- the source by the parser MODEL, which is proved to build the denoted expression (C05)
+      (match OH.Model.Parser.parse (dec (args.getLast?.getD "")) with
+       | .ok em =>
+         if em.map (·.comments) != e.map (·.comments) then
+           some s!"fail parsed-comments model={joinSp (em.map (fun r => "[" ++ ",".intercalate (r.comments.map enc) ++ "]"))}"
+         else handleC17 op args ctx e res
+       | .error _ => handleC17 op args ctx e res)
     else if op.startsWith "c04." then
       if isPanicTok res then some s!"fail panic{panicClass e res} at={(res.head?).getD "?"}"
       else if res == ["endless"] then some "fail unbounded-iteration"
